@@ -2,6 +2,7 @@ use rustc_version::{version_meta, Channel};
 
 fn main() {
     println!("cargo::rustc-check-cfg=cfg(CHANNEL_NIGHTLY)");
+    println!("cargo::rustc-check-cfg=cfg(sos_verif)");
 
     // Set cfg flags depending on release channel
     let channel = match version_meta().unwrap().channel {
